@@ -151,6 +151,21 @@ int main() {
         nullptr
 #endif
     };
+#if VERIF_T == 2 && !defined(VERIF_PICK_DRIVER)
+    // mirrors the two-thread driver of ir2c/driver.c:  [T1] T2 T1 T2 ...
+    bool skip_first = nondet_bool();
+    (void) last;
+    for ( int seg = 0; seg < VERIF_K + 1; ++seg ) {
+        if ( nfin == (unsigned)T ) break;
+        if ( seg == 0 && skip_first ) continue;
+        unsigned pick = ( seg & 1 ) == 0 ? 1 : 2;
+        if ( fin[pick] ) continue;
+        void (*b)() = body[pick];
+        bool done = run_on( (int)pick, [b] { b(); }, !started[pick] );
+        started[pick] = true;
+        if ( done ) { fin[pick] = true; ++nfin; }
+    }
+#else
     for ( int seg = 0; seg < VERIF_K; ++seg ) {
         if ( nfin == (unsigned)T ) break;
         unsigned pick = (unsigned)__verif_rt_range( 1, T );
@@ -161,6 +176,7 @@ int main() {
         started[pick] = true;
         if ( done ) { fin[pick] = true; ++nfin; last = 0; } else last = pick;
     }
+#endif
     if ( nfin != (unsigned)T ) __verif_rt_pruned();
     g_noyield = true;
 #ifdef HAVE_FINI
